@@ -194,11 +194,11 @@ Theorem okb_spec (c : case) :
   C09.okb c = true <->
   (forall r, In r (c_rows c) -> r_tree r <> None)
   /\ (out_of_statement c = false ->
-      forall o n, In (o, n) (c_keep c) ->
+      forall o n, In (o, n) (c_keep c ++ c_keep_side c) ->
         let t := ext_table c (length (c_rows c)) in
         tab_tree t (N.to_nat n) = tab_tree t (N.to_nat o)).
 Proof.
-  unfold C09.okb. rewrite Bool.andb_true_iff, Bool.orb_true_iff, !forallb_forall. split.
+  unfold C09.okb. rewrite Bool.andb_true_iff, Bool.orb_true_iff, <- forallb_app, !forallb_forall. split.
   - intros [A B]. split.
     + intros r Hr. specialize (A r Hr). destruct (r_tree r); congruence.
     + intros Hs o n Hin. destruct B as [B|B]; [congruence|]. specialize (B (o, n) Hin).
